@@ -103,6 +103,12 @@ func scSP() *saml2.SAMLServiceProvider {
 	sp.SignAuthnRequestsAlgorithm = idp.SigRSASHA512
 	sp.SignAuthnRequestsCanonicalizer = dsig.MakeC14N10ExclusiveCanonicalizerWithPrefixList("")
 	sp.SetSPSigningKeyStore(&saml2.KeyStore{Signer: ks["signSetter"].Key, Cert: ks["signSetter"].DER})
+	// optional settings are in use too (a blank class reference between two others is legal, if odd): nothing a call
+	// does may write to any of this
+	sp.ForceAuthn = true
+	sp.NameIdFormat = saml2.NameIdFormatPersistent
+	sp.RequestedAuthnContext = &saml2.RequestedAuthnContext{Comparison: saml2.AuthnPolicyMatchExact,
+		Contexts: []string{saml2.AuthnContextPasswordProtectedTransport, "", "urn:oasis:names:tc:SAML:2.0:ac:classes:X509"}}
 	return sp
 }
 
